@@ -8,6 +8,7 @@
  C14.c  table and public dimensions: point/multipoint length 0 and area 0, line/ring/multiline area 0; otherwise the inferred unit of
         the public result is Len for length and X*Y for area; scalar and array forms use the same kernel with the element's innermost
         (per-ring) offsets.
+ C14.i  sibling agreement: every kind measures a part with the same length kernel and the same area kernel (resolved through the public methods).
  C14.d  boundary re-wraps the same value buffer with ring-level offsets composed correctly; the outermost re-wrap carries the validity mask.
 Does not decide: that the shoelace/wrap-around formula is right, degenerate-ring threshold, floating-point accuracy.
 """
@@ -29,48 +30,140 @@ ZERO = {('multipoint', 'length'), ('multipoint', 'area'), ('line', 'area'), ('ri
 DIM = {'length': {'L': 1}, 'area': {'X': 1, 'Y': 1}}
 
 
-def kernel_rules(P, R):
-    ll = P.func(MEAS, 'compute_line_length')
-    ar = P.func(MEAS, 'compute_area')
-    for f in (ll, ar):
-        loops = [s for s in f.node.body if isinstance(s, ast.For)]
-        R.floor('C14.a', f'per-part loop in {f.name}', len(loops), 1)
-        early = [s for l in loops for s in ast.walk(l) if isinstance(s, ast.Return)]
-        R.check(not early, 'C14.a', f, early[0] if early else None, f'{f.name} sums over all parts (no return inside the per-part loop)',
-                f'{f.name} returns from inside the loop over parts: one degenerate/early part discards the contribution of all the others')
-    # isfinite guard of the segment accumulation
-    acc = [s for s in ast.walk(ll.node) if isinstance(s, ast.AugAssign) and isinstance(s.op, ast.Add) and 'sqrt' in norm(s.value)]
-    R.floor('C14.a', 'segment accumulation in compute_line_length', len(acc), 1)
-    for s in acc:
-        used = astq.names_in(s.value) - {'sqrt', 'np', 'math'}
-        g = s
-        guard = None
-        while getattr(g, '_parent', None) is not None:
-            g = g._parent
-            if isinstance(g, ast.If) and 'isfinite' in norm(g.test):
-                guard = g
-                break
-        ok = guard is not None and all(f'isfinite({n})' in norm(guard.test) for n in used)
-        R.check(ok, 'C14.a', ll, s, 'each segment is counted only when all four coordinates are finite', f'segment accumulation is not guarded by isfinite of {sorted(used)}: a NaN vertex poisons the length')
-    # degenerate rings (< 3 vertices) contribute 0: the guard compares a count of interleaved VALUES, so the threshold is 2 * 3
-    guards = []
-    for s in ast.walk(ar.node):
+def measure_kernels(P):
+    """The per-element measure functions of the resolved program: {'length': {FuncInfo: [sites]}, 'area': {...}} — every repository function of
+    the measures module that a public `length` / `area` (array or scalar form) calls directly or hands to a map kernel."""
+    out = {'length': {}, 'area': {}}
+    for ci in P.classes.values():
+        if not ci.mod.name.startswith(geom.G):
+            continue
+        for attr in ('length', 'area'):
+            for key, g in ci.mod.funcs.items():
+                if g.cls is not ci or g.name != attr:
+                    continue
+                work, seen = [g], set()
+                while work:
+                    h = work.pop()
+                    if h.key in seen:
+                        continue
+                    seen.add(h.key)
+                    for c in astq.own_calls(h):
+                        r = P.resolve_call(h, c)
+                        cands = []
+                        if r and r[0] == 'func':
+                            if r[1].mod.name == MEAS:
+                                cands.append(r[1])
+                            elif r[1].cls is not None and r[1].mod.name.startswith(geom.G) and r[1].name not in ('__init__',) and not r[1].name.startswith('buffer_'):
+                                work.append(r[1])        # helper methods of the geometry classes (`self._map_measure(kernel)`)
+                        for a_ in list(c.args) + [k.value for k in c.keywords]:
+                            if isinstance(a_, ast.Name):
+                                ra = P.resolve_expr_static(h.mod, a_, local=h)
+                                if ra and ra[0] == 'func' and ra[1].mod.name == MEAS:
+                                    cands.append(ra[1])
+                        for k_ in cands:
+                            out[attr].setdefault(k_, []).append((g, c))
+    return out
+
+
+def _unwrap(P, k):
+    """A kernel whose whole body is `return other(<its own parameters>)` is that other kernel."""
+    seen = set()
+    while k.key not in seen:
+        seen.add(k.key)
+        body = astq.real([s_ for s_ in k.node.body if not (isinstance(s_, ast.Expr) and isinstance(s_.value, ast.Constant))])
+        if len(body) == 1 and isinstance(body[0], ast.Return) and isinstance(body[0].value, ast.Call):
+            r = P.resolve_call(k, body[0].value)
+            if r and r[0] == 'func' and [norm(a_) for a_ in body[0].value.args] == list(k.params) and not body[0].value.keywords:
+                k = r[1]
+                continue
+        break
+    return k
+
+
+def _const(P, f, e):
+    """Integer value of an expression that is a literal or a module-level constant name."""
+    e = astq.trace(f, e) if isinstance(e, ast.Name) else e
+    if isinstance(e, ast.Constant) and isinstance(e.value, (int, float)) and not isinstance(e.value, bool):
+        return e.value
+    if isinstance(e, ast.Name):
+        r = P.resolve_global(f.mod, e.id)
+        if r and r[0] == 'assign' and isinstance(getattr(r[2], 'value', None), ast.Constant) and isinstance(r[2].value.value, (int, float)):
+            return r[2].value.value
+    return None
+
+
+def _size_guards(P, f):
+    """`if <count of values> < c: continue/return` guards of f: [(if-node, limit)] — parts with fewer than `limit` interleaved values are skipped."""
+    out = []
+    for s in ast.walk(f.node):
         if isinstance(s, ast.If) and isinstance(s.test, ast.Compare) and any(isinstance(x, (ast.Continue, ast.Return)) for x in s.body):
             for l_, op, r_ in astq.cmp_forms(s.test):
-                if op in (ast.Lt, ast.LtE) and isinstance(r_, ast.Constant):
-                    lhs = astq.trace(ar, l_)
+                c = _const(P, f, r_)
+                if op in (ast.Lt, ast.LtE) and c is not None:
+                    lhs = astq.trace(f, l_)
                     if isinstance(lhs, ast.BinOp) and isinstance(lhs.op, ast.Sub):
-                        guards.append((s, op, r_.value))
-    for gd, op, c in guards:
-        limit = c if op is ast.Lt else c + 1      # rings with fewer than `limit` values are skipped
-        R.check(limit >= 6, 'C14.a', ar, gd.test, 'rings with fewer than 3 vertices (6 interleaved values) are skipped before the wrap-around term',
-                f'the degenerate-ring guard `{norm(gd.test)}` compares a count of interleaved coordinate values with {c}: a 2-vertex ring (4 values) reaches the wrap-around term '
-                f'and gets a spurious area x0*(y1-y0)/2')
-    R.check(bool(guards), 'C14.a', ar, None, 'compute_area has a degenerate-ring guard', 'compute_area has no degenerate-ring guard: the wrap-around term reads values[start+3] / values[stop-3] of rings with fewer than 3 vertices',
-            construct='degenerate ring guard', nontrivial=False)
-    rets = [s for s in walk_own(ar.node) if isinstance(s, ast.Return)]
-    ok = bool(rets) and all(isinstance(s.value, ast.BinOp) and isinstance(s.value.op, ast.Div) and norm(s.value.right) in ('2.0', '2') for s in rets)
-    R.check(ok, 'C14.a', ar, rets[-1] if rets else None, 'the shoelace sum is halved', 'the shoelace sum is not halved')
+                        out.append((s, c if op is ast.Lt else c + 1))
+    return out
+
+
+def kernel_rules(P, R):
+    mk = measure_kernels(P)
+    R.floor('C14.a', 'length kernels found through the public length methods', len(mk['length']), 1)
+    R.floor('C14.a', 'area kernels found through the public area methods', len(mk['area']), 1)
+    R.floor('C14.a', 'public length/area sites that use a measure kernel', sum(len(v) for d in mk.values() for v in d.values()), 12)
+    # C14.i sibling agreement: the boundary of a polygon is the multi-line of its rings, and its length is the polygon's length; all kinds
+    # therefore measure a part with ONE length kernel (and one area kernel): two kernels that differ skip or count different parts
+    for attr in ('length', 'area'):
+        ks = {}
+        for k_, sites in mk[attr].items():
+            ks.setdefault(_unwrap(P, k_), []).extend(sites)
+        major = max(ks, key=lambda k_: len(ks[k_]))
+        for k_, sites in ks.items():
+            for g, c in sites:
+                R.check(k_ is major, 'C14.i', g, c, f'{g.qualname} measures its parts with the same {attr} kernel as every other kind ({major.name})',
+                        f'{g.qualname} measures its parts with {k_.name} while the other kinds use {major.name}: the {attr} of a polygon and of its boundary / the '
+                        f'same parts stored as another kind no longer agree', construct=f'{g.qualname} {attr} kernel')
+    for attr in ('length', 'area'):
+        for f in mk[attr]:
+            loops = [s for s in f.node.body if isinstance(s, ast.For)]
+            R.floor('C14.a', f'per-part loop in {f.name}', len(loops), 1)
+            early = [s for l in loops for s in ast.walk(l) if isinstance(s, ast.Return)]
+            R.check(not early, 'C14.a', f, early[0] if early else None, f'{f.name} sums over all parts (no return inside the per-part loop)',
+                    f'{f.name} returns from inside the loop over parts: one degenerate/early part discards the contribution of all the others')
+    for ll in mk['length']:
+        # isfinite guard of the segment accumulation (helpers of the measures module are followed)
+        fam = [g for g in P.reachable([ll], follow_nested=False) if g.mod.name == MEAS]
+        acc = [(g, s) for g in fam for s in ast.walk(g.node) if isinstance(s, ast.AugAssign) and isinstance(s.op, ast.Add) and any(t in norm(s.value) for t in ('sqrt', 'hypot'))]
+        R.floor('C14.a', f'segment accumulation in {ll.name}', len(acc), 1)
+        for g, s in acc:
+            used = astq.names_in(s.value) - {'sqrt', 'np', 'math', 'hypot'}
+            q = s
+            guard = None
+            while getattr(q, '_parent', None) is not None:
+                q = q._parent
+                if isinstance(q, ast.If) and 'isfinite' in norm(q.test):
+                    guard = q
+                    break
+            ok = guard is not None and all(f'isfinite({n})' in norm(guard.test) for n in used)
+            R.check(ok, 'C14.a', g, s, 'each segment is counted only when all four coordinates are finite', f'segment accumulation is not guarded by isfinite of {sorted(used)}: a NaN vertex poisons the length')
+        # a part with two vertices (4 interleaved values) has a length: a size guard of a length kernel may only skip parts with fewer
+        for g in fam:
+            for gd, limit in _size_guards(P, g):
+                R.check(limit <= 4, 'C14.a', g, gd.test, 'a length kernel skips only parts with fewer than 2 vertices',
+                        f'the guard `{norm(gd.test)}` of the length kernel {g.name} skips parts with fewer than {limit} interleaved values: a 2-vertex part (4 values: a segment, or a '
+                        'ring that goes out and back) has a length, and the same part measured through the boundary / as a line still counts it')
+    for ar in mk['area']:
+        # degenerate rings (< 3 vertices) contribute 0: the guard compares a count of interleaved VALUES, so the threshold is 2 * 3
+        guards = _size_guards(P, ar)
+        for gd, limit in guards:
+            R.check(limit >= 6, 'C14.a', ar, gd.test, 'rings with fewer than 3 vertices (6 interleaved values) are skipped before the wrap-around term',
+                    f'the degenerate-ring guard `{norm(gd.test)}` skips rings with fewer than {limit} interleaved coordinate values: a 2-vertex ring (4 values) reaches the wrap-around term '
+                    f'and gets a spurious area x0*(y1-y0)/2')
+        R.check(bool(guards), 'C14.a', ar, None, f'{ar.name} has a degenerate-ring guard', f'{ar.name} has no degenerate-ring guard: the wrap-around term reads values[start+3] / values[stop-3] of rings with fewer than 3 vertices',
+                construct='degenerate ring guard', nontrivial=False)
+        rets = [s for s in walk_own(ar.node) if isinstance(s, ast.Return)]
+        ok = bool(rets) and all(isinstance(s.value, ast.BinOp) and isinstance(s.value.op, ast.Div) and norm(s.value.right) in ('2.0', '2') for s in rets)
+        R.check(ok, 'C14.a', ar, rets[-1] if rets else None, 'the shoelace sum is halved', 'the shoelace sum is not halved')
 
 
 def _guard_kinds(f, store):
